@@ -14,7 +14,7 @@ import (
 func c18Cfg(opts flags.Options) *DeclCfg {
 	types := []TypeSpec{{K: KString}, {K: KBool}, {K: KBool}, {K: KInt}, {K: KString, W: WSlice}, {K: KVocab}, {K: KVocab}, {K: KVocab, W: WSlice}, {K: KBool, W: WSlice}, {K: KFloat64}}
 	return &DeclCfg{
-		MaxDepth: 3, MaxFan: 4, PCmds: 70, Types: types, OptsMin: 1, OptsMax: 4, SubGroupsMax: 1, NestMax: 1,
+		MaxDepth: 3, MaxFan: 4, PCmds: 70, Types: types, OptsMin: 1, OptsMax: 4, SubGroupsMax: 1, PInline: 20, NestMax: 1,
 		PNamespace: 30, PShortOnly: 15, PLongOnly: 25, PHidden: 20, PHiddenCmd: 20, PProgAttr: 30, POptional: 15, PDesc: 40,
 		PPos: 30, PosMax: 2, PRest: 30, PExec: 30, PByTag: 50, PSubOptional: 40, PAliases: 30, NonASCII: true,
 		ParserOpts: []flags.Options{opts}, PosTypes: []TypeSpec{{K: KString}, {K: KVocab}, {K: KVocab}},
